@@ -1,5 +1,31 @@
 import MgpuModel.Util
-/-! C03 (scalar part) — stub; replaced by the scalar-ALU module. -/
+import MgpuModel.C03S_Types
+import MgpuModel.C03S_Spec
+import MgpuModel.C03S_Machine
+/-! # C03 (scalar part) — driver entry
+
+`c03 s <arch> <hexbytes> scc= vcc= exec= pc= m0= s=<idx>:<hex>,…`
+  arch = `gcn3` | `cdna3`          → post-state delta prescribed by the ISA specification
+  arch = `gen.gcn3` | `gen.cdna3`  → post-state delta of the handler TRANSLATED from the Go source
+                                     (translator validation; must equal the real handler) -/
 namespace C03S
-def handle (_line : String) : String := "bad"
+
+def specSem (d : DInst) : Option Sem :=
+  (Spec.find d.fmt d.op).map fun o => ⟨o.dstW, o.src0W, o.src1W, o.f⟩
+
+def handle (line : String) : String :=
+  match Util.words line with
+  | _ :: _ :: arch :: hex :: rest =>
+    match parseInst hex, parseState rest with
+    | some d, some st =>
+      let sem := if arch == "gcn3" || arch == "cdna3" then specSem d else none
+      match sem with
+      | none => "nospec"
+      | some sem =>
+        match execute sem d st with
+        | some st' => deltaStr st st'
+        | none => "unsupported-operand"
+    | _, _ => "bad"
+  | _ => "bad"
+
 end C03S
